@@ -691,7 +691,7 @@ func (g *GoFakeS3) createObject(bucket, object string, w http.ResponseWriter, r 
 	if sha, ok := meta["X-Amz-Content-Sha256"]; ok && sha == "STREAMING-AWS4-HMAC-SHA256-PAYLOAD" {
 		reader = newChunkedReader(r.Body)
 		size, err = strconv.ParseInt(meta["X-Amz-Decoded-Content-Length"], 10, 64)
-		if err != nil {
+		if err != nil || size < 0 {
 			w.WriteHeader(http.StatusBadRequest) // XXX: no code for this, according to s3tests
 			return nil
 		}
